@@ -190,7 +190,11 @@ def audit(ctx, case, b, caps, hist, wit, fault=None):
         rows = cur.execute(f"select julian_date, {', '.join(cols)} from {table}").fetchall()  # noqa: S608
         dangling_e = [r for r in rows if r[0] not in jdset]
         dangling_a = [r for r in rows if any(a not in agents for a in r[1:])]
-        ctx.check(not dangling_e, f"dangling-epoch-{table}", f"{len(dangling_e)} row(s) of {table} refer to a Julian date that is not in the epochs table, e.g. {dangling_e[:2]}", wit, mon="referential")
+        # mechanism: rows recorded at physics epochs AFTER the configured stop time that are not output epochs
+        # (the clock pre-inserts epochs only up to the stop time; later ones are inserted at output epochs only)
+        stop_jd = max((e[1] for e in epochs if datetime.fromisoformat(e[2]) <= datetime.fromisoformat(net["start"]) + timedelta(seconds=case["span_steps"] * net["step"])), default=None)
+        past_stop = bool(dangling_e) and stop_jd is not None and all(r[0] > stop_jd for r in dangling_e) and case["out"] != net["step"]
+        ctx.check(not dangling_e, f"dangling-epoch-{table}" + ("-past-configured-stop" if past_stop else ""), f"{len(dangling_e)} row(s) of {table} refer to a Julian date that is not in the epochs table, e.g. {dangling_e[:2]}", wit, mon="referential")
         ctx.check(not dangling_a, f"dangling-agent-{table}", f"{len(dangling_a)} row(s) of {table} refer to an agent that is not in the agents table", wit, mon="referential")
         ctx.count("rows_" + table, len(rows))
     sub = cur.execute("select count(*) from sequential_filter_step s left join filterstep f on f.id = s.id where f.id is null").fetchone()[0]
